@@ -462,6 +462,11 @@ class TokamakEquilibrium(Equilibrium):
             self.user_options.xpoint_refine_atol,
             self.user_options.xpoint_refine_maxits,
         )
+        if self.user_options.psi_interpolation_method != "spline":
+            # find_critical uses its own spline interpolation of psi2D: take the values
+            # of psi at the critical points from the interpolation used everywhere else
+            opoints = [(r, z, float(self.psi(r, z))) for r, z, _ in opoints]
+            xpoints = [(r, z, float(self.psi(r, z))) for r, z, _ in xpoints]
 
         if len(opoints) == 0:
             warnings.warn("No O-points found in TokamakEquilibrium input")
